@@ -158,7 +158,7 @@ mod __verif_c21 {
     // @harness tiers=quick,thorough
     // @encodes physical::morsel_agg::AggregationState::slot_has_data
     // @bounds keys of 0..=2 columns, each NULL or BIGINT; 0..=2 accumulators in their initial state (a group whose aggregated inputs were all NULL)
-    // @oracle the global (empty-key) slot with accumulators and every slot with a non-NULL key column are never dropped
+    // @oracle the global (empty-key) slot with accumulators and every slot with a non-NULL key column are never dropped (a slot whose key is NULL in every column is the region of known finding C21-null-key-all-null-inputs-dropped, pinned below)
     #[kani::proof]
     #[kani::unwind(4)]
     fn occupied_slots_are_never_dropped() {
@@ -193,6 +193,30 @@ mod __verif_c21 {
         if nkeys == 0 && naccs > 0 {
             assert!(has, "C21.global_aggregate_always_has_its_row");
         }
+        std::mem::forget(key);
+        std::mem::forget(accs);
+    }
+
+    // @harness tiers=quick,thorough finding=C21-null-key-all-null-inputs-dropped
+    // @encodes physical::morsel_agg::AggregationState::slot_has_data
+    // @bounds an OCCUPIED slot whose grouping key is NULL (one or two key columns, all NULL) and whose accumulators saw only NULL inputs (COUNT = 0, MIN/MAX/SUM empty)
+    // @oracle NULL grouping keys form one group, and a group with no non-NULL input still yields a row (COUNT 0, NULL for the rest): the slot must be kept
+    #[kani::proof]
+    #[kani::unwind(4)]
+    fn kf_null_key_group_with_only_null_inputs_is_kept() {
+        let two: bool = kani::any();
+        let mut values = Vec::with_capacity(2);
+        values.push(ScalarValue::Null);
+        if two {
+            values.push(ScalarValue::Null);
+        }
+        let mut accs = Vec::with_capacity(2);
+        accs.push(AccumulatorState::Count(0));
+        accs.push(if kani::any() { AccumulatorState::Max(None) } else { AccumulatorState::SumInt(0, false) });
+        let key = GroupKey { values };
+        let has = AggregationState::slot_has_data(&key, &accs);
+        kani::cover!(two);
+        assert!(has, "C21.null_key_group_with_only_null_inputs_is_kept");
         std::mem::forget(key);
         std::mem::forget(accs);
     }
